@@ -65,10 +65,21 @@ def run(tier, only=None):
     def work(it):
         f, op = it
         return check_op(built, f, op, tier, timeout=timeout)
+    # deferred operations (no symbolic certificate within budget) get a native closed-case corpus instead
+    ditems = [(f, op) for f in fields for op in f.ops if (f.tag, op) in DEFER and not only and op in ("square", "mul")]
+    from .fieldops import corpus_op
+
+    def work(it):
+        f, op = it[:2]
+        if len(it) == 3:
+            return corpus_op(built, f, op)
+        return check_op(built, f, op, tier, timeout=timeout)
+    items = items + [(f, op, "corpus") for f, op in ditems]
     res = pmap(work, items, nproc=NCPU, timeout=max(1800, timeout * 4))
     obs = []
     merr = None
-    for (f, op), (st, val) in zip(items, res):
+    for it_, (st, val) in zip(items, res):
+        f, op = it_[:2]
         if st == "ok":
             obs.extend(val)
         else:
@@ -90,5 +101,6 @@ def run(tier, only=None):
                                "transmute between the field struct and its limb array preserves layout (validated natively)"],
                   outside=["binary fields GF(2^127)/GF(2^254): see evidence notes", "w32/m51/clmul backends: C18",
                            "xsquare n>2", "primality of moduli",
-                           "deferred (no certificate within budget): " + ", ".join(deferred)],
+                           "deferred (no symbolic certificate within budget; square / mul among them are replayed natively on a "
+                           "closed-case corpus of limb patterns, reported as ground facts): " + ", ".join(deferred)],
                   machinery_error=merr)
